@@ -20,8 +20,22 @@ Definition model_masks (s : state) : list Z :=
 
 Definition blocked_tids (s : state) : list Z := map Z.of_nat (tids_where timed_blocked (threads s) O).
 
+(* harness/vsched.h decides the final status in this order: all finished -> done; no candidate -> deadlock (done when nobody is
+   blocked); step count = budget -> budget.  Base.Sched.run tests its fuel first, so a run that finishes (or deadlocks) exactly at
+   the budget comes back as SBudget: re-derive the status from the final state the way vsched does. *)
+Definition vstatus (s : state) (st : status) : status :=
+  match st with
+  | SBudget => if finished s then SDone
+               else match cands s with
+                    | [] => if existsb timed_blocked (threads s) then SDeadlock else SDone
+                    | _ => SBudget
+                    end
+  | _ => st
+  end.
+
 Definition agrees (c : wcase) : bool :=
-  let '(s, tr, st) := run_wake (w_fuel c) (w_cfg c) (w_progs c) (w_sched c) in
+  let '(s, tr, st0) := run_wake (w_fuel c) (w_cfg c) (w_progs c) (w_sched c) in
+  let st := vstatus s st0 in
   list_eqb zpair_eqb tr (i_trace c) && (status_code st =? i_status c) &&
   list_eqb (list_eqb zpair_eqb) (map (fun th => rev (res th)) (threads s)) (i_results c) &&
   zlist_eqb (model_masks s) (i_masks c) && zlist_eqb (epochs (wks s)) (i_epochs c) &&
@@ -73,3 +87,46 @@ Definition proto_case (c : wcase) : bool :=
 
 Definition has_claim (c : wcase) : bool :=
   existsb (existsb (fun o => match o with OClaim | OTryClaim _ => true | _ => false end)) (w_progs c).
+
+(* ---------- the premise of C07: the pool is fully parked when the submission is made ---------- *)
+(* worker threads of a protocol-conformant case *)
+Definition worker_tids (c : wcase) : list nat :=
+  filter (fun t => worker_prog (nth t (w_progs c) [])) (seq O (length (w_progs c))).
+
+Definition parked_or_done (s : state) (u : nat) : bool :=
+  match nth_error (threads s) u with
+  | Some th => match tpc th with PBlocked _ _ | PDone => true | _ => false end
+  | None => true
+  end.
+
+(* follows the schedule exactly like Base.Sched.run and reports whether every push of a task (ring / central / steal) was executed
+   in a state in which every worker thread was blocked in the futex (or had finished its script) *)
+Fixpoint pushes_when_parked (wts : list nat) (fuel : nat) (s : state) (ch : list Z) : bool :=
+  match fuel with
+  | O => true
+  | S fuel' =>
+      if finished s then true else
+      match cands s with
+      | [] => true
+      | (c0 :: _) as cs =>
+          match ch with
+          | [] => true
+          | c :: ch1 =>
+              let t := nth (Z.to_nat (c mod Z.of_nat (length cs))) cs c0 in
+              let ok := match nth_error (threads s) t with
+                        | Some th => match tpc th with
+                                     | PPushRing _ | PPushCentral | PPushSteal _ => forallb (parked_or_done s) wts
+                                     | _ => true
+                                     end
+                        | None => true
+                        end in
+              match step s t ch1 with
+              | None => ok
+              | Some (s', ch2, _) => ok && pushes_when_parked wts fuel' s' ch2
+              end
+          end
+      end
+  end.
+
+Definition submitted_to_parked_pool (c : wcase) : bool :=
+  pushes_when_parked (worker_tids c) (w_fuel c) (init (w_cfg c) (w_progs c)) (w_sched c).
